@@ -37,6 +37,7 @@ func replyFields(resp string) []fieldPos {
 var bytePool = []byte{0, 1, 2, 3, 4, 9, 0x0a, 0x10, 0x23, 0x24, 0x25, 0x59, 0x60, 0x61, 0x99, 0x9a, 0xa0, 0xfe, 0xff}
 
 var datePatterns = [][]byte{
+	{0x20, 0x23, 0x12, 0x01}, {0x20, 0x24, 0x02, 0x01}, {0x20, 0x23, 0x11, 0x15}, {0x20, 0x24, 0x01, 0x15}, {0x20, 0x24, 0x02, 0x17}, {0x20, 0x24, 0x03, 0x01}, // pairs a coarse cache key would confuse
 	{0, 0, 0, 0}, {0x00, 0x01, 0x01, 0x01}, {0x00, 0x01, 0x01, 0x02}, {0x20, 0x24, 0x02, 0x29}, {0x20, 0x23, 0x02, 0x29}, {0x20, 0x00, 0x02, 0x29}, {0x19, 0x00, 0x02, 0x29},
 	{0x20, 0x24, 0x00, 0x10}, {0x20, 0x24, 0x13, 0x10}, {0x20, 0x24, 0x12, 0x00}, {0x20, 0x24, 0x12, 0x32}, {0x20, 0x24, 0x04, 0x31}, {0x20, 0x24, 0x12, 0x31},
 	{0x2a, 0x24, 0x01, 0x01}, {0x20, 0xb4, 0x01, 0x01}, {0x20, 0x24, 0x1f, 0x01}, {0x20, 0x24, 0x01, 0xc1}, {0xa0, 0x24, 0x01, 0x01}, {0x99, 0x99, 0x12, 0x31}, {0x00, 0x00, 0x01, 0x01},
